@@ -199,6 +199,8 @@ func TestVerifReplayConverge(t *testing.T) {
 		"two intents deleted in one transaction":                          {{name: "A", prio: 10, json: ifTwo}, {name: "B", prio: 20, json: ifTwo}, {name: "C", prio: 30, json: ifA}, {name: "A", prio: 10, json: "", with: []vrcStep{{name: "B", prio: 20, json: ""}}}},
 		"two intents set in one transaction":                              {{name: "A", prio: 10, json: ifA, with: []vrcStep{{name: "B", prio: 5, json: ifTwo}}}, {name: "B", prio: 5, json: ""}},
 		"unchanged shadowed intent re-applied":                            {{name: "A", prio: 10, json: ifA}, {name: "B", prio: 5, json: ifB}, {name: "A", prio: 10, json: ifA}},
+		"unchanged intent holding the ruling case re-applied":             {{name: "O1", prio: 5, json: case1}, {name: "O2", prio: 10, json: case2}, {name: "O1", prio: 5, json: case1}},
+		"unchanged intent holding the losing case re-applied":             {{name: "O1", prio: 5, json: case1}, {name: "O2", prio: 10, json: case2}, {name: "O2", prio: 10, json: case2}},
 		"deleted intent cancelled":                                        {{name: "A", prio: 10, json: ifTwo}, {name: "A", prio: 10, json: "", cancel: true}},
 	}
 	names := make([]string, 0, len(histories))
@@ -332,7 +334,14 @@ func TestVerifReplayConverge(t *testing.T) {
 			}
 			// C09
 			if unchanged && (len(rsp.GetUpdate()) > 0 || len(rsp.GetDelete()) > 0) {
-				fmt.Printf("REPLAY-FAIL fn=%s clause=quiet input=%s why=the intent is unchanged, yet %d update(s) and %d delete(s) are sent: %v %v\n", "(*tree.LeafVariants).GetHighestPrecedence", in, len(rsp.GetUpdate()), len(rsp.GetDelete()), rsp.GetUpdate(), rsp.GetDelete())
+				clause := "quiet"
+				if hname == "unchanged intent holding the ruling case re-applied" && len(rsp.GetUpdate()) == 0 && len(rsp.GetDelete()) == 1 &&
+					strings.Join(utils.ToStrings(rsp.GetDelete()[0], false, false), "/") == "choices/case2" {
+					clause += ".known" // recorded finding: the case another intent holds is deleted again (it is not on the device)
+				}
+				for _, fn := range []string{"(*tree.LeafVariants).GetHighestPrecedence", fnLL} {
+					fmt.Printf("REPLAY-FAIL fn=%s clause=%s input=%s why=the intent is unchanged, yet %d update(s) and %d delete(s) are sent: %v %v\n", fn, clause, in, len(rsp.GetUpdate()), len(rsp.GetDelete()), rsp.GetUpdate(), rsp.GetDelete())
+				}
 			}
 			// C01: expected device
 			want := map[string]string{}
